@@ -56,6 +56,9 @@ func GenC07() *rapid.Generator[C07Case] {
 		c := C07Case{Excess: genCoeff().Draw(t, "excess"), Disjoint: genCoeff().Draw(t, "disjoint"), Mutdiff: genCoeff().Draw(t, "mutdiff")}
 		c.Pattern = rapid.SampledFrom([]string{"mixed", "mixed", "mixed", "identical", "prefix", "interleaved", "blocks", "tail", "single", "empty"}).Draw(t, "pattern")
 		n := rapid.IntRange(1, pick(60, 120)).Draw(t, "n")
+		if rapid.IntRange(0, 59).Draw(t, "long lists") == 31 {
+			n = rapid.IntRange(120, 600).Draw(t, "n (long)")
+		}
 		// the universe of innovation numbers, strictly increasing with random gaps
 		innovs := make([]int64, n)
 		cur := int64(rapid.IntRange(0, 5).Draw(t, "first"))
